@@ -854,6 +854,7 @@ pub fn ops_text(n: usize, ops: &[Op]) -> String {
     format!("n={} {}", n, ops.iter().map(gop).collect::<Vec<_>>().join("; "))
 }
 
+pub const HEADER_CMD: &str = "From LV Require Import Base.Prelude Model.PathStore Model.Commands Run.C14.\nOpen Scope Z_scope.";
 pub const HEADER: &str = "From LV Require Import Base.Prelude Model.PathStore Run.C14.\nOpen Scope Z_scope.";
 
 pub fn run_one(id: usize, n: usize, ops: &[Op], w: &mut ShardWriter, st: &mut Stats, origin: &str) {
@@ -894,10 +895,65 @@ pub fn run_one(id: usize, n: usize, ops: &[Op], w: &mut ShardWriter, st: &mut St
     ));
 }
 
+/// the program as a command buffer over external storage: the EventIds the builder calls return, the ids visited
+/// by event() / next_event_id_in_path from EventId(0), and next_event_id_in_sub_path at each of them - for the Coq
+/// model of commands.rs (Model/Commands.v), whose EventIds are positions in the modelled buffer
+fn cmd_case_literal(id: usize, ops: &[Op]) -> Option<String> {
+    catch(AssertUnwindSafe(|| {
+        let mut b = lyon_path::commands::PathCommands::builder();
+        let (mut ne, mut nc) = (0u32, 0u32);
+        let mut cops: Vec<String> = Vec::new();
+        let mut ids: Vec<i64> = Vec::new();
+        for o in ops {
+            match o {
+                Op::Begin(..) => {
+                    ids.push(b.begin(EndpointId(ne)).0 as i64);
+                    cops.push(format!("CBegin {}", ne));
+                    ne += 1;
+                }
+                Op::Line(..) => {
+                    ids.push(b.line_to(EndpointId(ne)).0 as i64);
+                    cops.push(format!("CLine {}", ne));
+                    ne += 1;
+                }
+                Op::Quad(..) => {
+                    ids.push(b.quadratic_bezier_to(ControlPointId(nc), EndpointId(ne)).0 as i64);
+                    cops.push(format!("CQuad {} {}", nc, ne));
+                    nc += 1;
+                    ne += 1;
+                }
+                Op::Cubic(..) => {
+                    ids.push(b.cubic_bezier_to(ControlPointId(nc), ControlPointId(nc + 1), EndpointId(ne)).0 as i64);
+                    cops.push(format!("CCubic {} {} {}", nc, nc + 1, ne));
+                    nc += 2;
+                    ne += 1;
+                }
+                Op::End(c) => {
+                    ids.push(b.end(*c).map_or(-1, |e| e.0 as i64));
+                    cops.push(format!("CEnd {}", gbool(*c)));
+                }
+            }
+        }
+        let cmds = b.build();
+        let mut walk: Vec<i64> = Vec::new();
+        let mut subs: Vec<i64> = Vec::new();
+        let mut cur = if ops.is_empty() { None } else { Some(lyon_path::EventId(0)) };
+        while let Some(i) = cur {
+            walk.push(i.0 as i64);
+            subs.push(cmds.next_event_id_in_sub_path(i).0 as i64);
+            cur = cmds.next_event_id_in_path(i);
+        }
+        let gl = |v: &[i64]| glist(v.iter().map(|x| gz(*x)));
+        format!("(mkCmd {} {} {} {} {})", id, glist(cops.iter().map(|c| format!("({})", c))), gl(&ids), gl(&walk), gl(&subs))
+    }))
+}
+
 pub fn main(args: &Args) -> std::io::Result<()> {
     let mut st = Stats::default();
     let mut w = ShardWriter::new(&args.out, "c14_cases", args.shards, HEADER, "bad_cases");
     w.disabled = args.direct_only();
+    let mut cw = ShardWriter::new(&args.out, "c14cmd_cases", 4, HEADER_CMD, "cmd_bad_cases");
+    cw.disabled = args.direct_only();
     let mut index = std::fs::File::create(args.out.join("c14_index.txt"))?;
     use std::io::Write;
     let mut id = 0usize;
@@ -912,6 +968,15 @@ pub fn main(args: &Args) -> std::io::Result<()> {
             let ops = instantiate(kinds, n, None);
             writeln!(index, "{}\t{}", id, ops_text(n, &ops))?;
             run_one(id, n, &ops, &mut w, &mut st, "exhaustive");
+            if n == 0 {
+                match cmd_case_literal(id, &ops) {
+                    Some(c) => {
+                        cw.push(c);
+                        st.inc("command_buffer_model_cases");
+                    }
+                    None => st.fail(jobj(&[("what", jstr("building / walking a command buffer panicked")), ("input", jstr(&ops_text(n, &ops)))])),
+                }
+            }
             id += 1;
         }
     }
@@ -931,9 +996,17 @@ pub fn main(args: &Args) -> std::io::Result<()> {
         };
         writeln!(index, "{}\t{}", id, ops_text(n, &ops))?;
         run_one(id, n, &ops, &mut w, &mut st, "random");
+        match cmd_case_literal(id, &ops) {
+            Some(c) => {
+                cw.push(c);
+                st.inc("command_buffer_model_cases");
+            }
+            None => st.fail(jobj(&[("what", jstr("building / walking a command buffer panicked")), ("input", jstr(&ops_text(n, &ops)))])),
+        }
         id += 1;
     }
     w.finish()?;
+    cw.finish()?;
     // polygon views: every point list up to 4 points on a 2x2 lattice, longer random ones; closed and open
     {
         let mut pw = ShardWriter::new(&args.out, "c14poly_cases", 4, HEADER, "poly_bad_cases");
